@@ -49,6 +49,11 @@ CHECKS = {
    note="Trusted: simrt + instrumenter; commit tap. Dependents created by third parties after the teardown began are not counted against the cleanup handler. Sampling only.",
    technique=TECH+"safety invariants checked on every prefix of the commit-tap log",
    ref="DESIGN.md §7 C07"),
+ "C09": dict(level="exploration",
+   text="Seeded search over interleavings of Put / Get / Release / Requeue(after) and the virtual clock on the REAL internal reconcile queue (reached through an overlaid build-tag facade), with history oracles for per-key exclusion, coalescing to the latest value, no lost notification, honoured requeue-after unless a fresh notification arrived (and no delay of a fresh notification by a pending backoff), and Len() = pending + held-back; plus the real queue runtime with a probe controller following scripted outcomes (ok, error, requeue, requeue-with-error, skip, panic): failed items are retried, requeue-after is never early, and retry delays after >=5 consecutive failures exceed every first-failure delay of the same run (growth and reset-on-success stated relative to delays observed in the run).",
+   note="Trusted: simrt + instrumenter; the facade file is overlaid at build time (add-only, nothing committed to /repo). The hand-over instant of an item is only known to lie between the worker's wait and get records; the oracles use only what is certain under that uncertainty. cenkalti/backoff jitter is real (seeded per run). Sampling only.",
+   technique=TECH+"history oracles over recorded queue operations against a reference notion of pending/held items; scripted outcome fault sequences for backoff",
+   ref="DESIGN.md §7 C09"),
  "C11": dict(level="exploration",
    text="Seeded differential execution: the same operation sequence (all options: owners, expected phases, stale versions, label/id selectors, bookmarks, tails, aggregated, skip-unmarshal, native Teardown RPCs and an old server answering Unimplemented) is applied step by step to a direct state and to client adapter -> simulated transport -> server -> state; results, error classes, written-back metadata (checked against the remote store) and, at quiescence, the watch event sequences must agree, and the sticky fallback must stop calling the missing RPC. A table of hand-crafted malformed wire requests is fired at the server handlers: a handler panic is a server crash.",
    note="Trusted: simrt + instrumenter; the in-process transport replaces gRPC/HTTP2 (it marshals/unmarshals every message with vtproto and maps handler errors through status as grpc-go does). Tombstones travel as resources with empty spec - treated as equal. Commit times are compared only inside the remote world. Two genuine server crashes found here were repaired in /repo. Sampling of sequences; the malformed-request table is fixed, not exhaustive.",
